@@ -50,6 +50,8 @@ CURATED = [
     ("or", (("leaf", "str"), ("gen", "list", (("leaf", "str"),)))), ("xor", (("leaf", "int"), ("leaf", "str"))),
     # bare builtin containers (their converters read bracketed text as JSON / a Python literal)
     ("leaf", "list"), ("leaf", "tuple"), ("leaf", "dict"), ("leaf", "set"), ("not", ("leaf", "list")), ("not", ("leaf", "dict")),
+    # hook-only rules (see _hook_rules)
+    ("leaf", "EvenHook"), ("leaf", "EvenHook"), ("leaf", "ShortHook"),
 ]
 DICT_CONS = [("con", "dict", (("min_length", 2),), (), ()), ("con", "dict", (("max_length", 1),), (), ()),
              ("gen", "dict", (("leaf", "str"), ("leaf", "int")))]
@@ -62,9 +64,34 @@ CUR_INPUTS = [10.0, "10", b"7", True, 5, 5.0, "5", None, "null", 3.5, -3, "-3", 
 _state = {}
 
 
+def _hook_rules():
+    """constrained types whose whole condition lives in their pre_validate / post_validate hooks (no origin, no keyword constraint)"""
+    if "EvenHook" in TS.ORIGINS:
+        return
+    from utype import Rule
+
+    class EvenHook(Rule):
+        @classmethod
+        def post_validate(cls, value, options=None):
+            if isinstance(value, bool) or not isinstance(value, int) or value % 2:
+                raise ValueError("not an even int")
+            return value
+
+    class ShortHook(Rule):
+        @classmethod
+        def pre_validate(cls, value, options=None):
+            if isinstance(value, (str, bytes, list, tuple, dict)) and len(value) > 2:
+                raise ValueError("too long")
+            return value
+
+    TS.ORIGINS["EvenHook"] = EvenHook
+    TS.ORIGINS["ShortHook"] = ShortHook
+
+
 def setup(ctx):
     import os
     from utype.parser.rule import LogicalType
+    _hook_rules()
 
     counts = {}
     raw = LogicalType.logical_parse
